@@ -450,7 +450,7 @@ fn assemble(channel: bool, entries: Vec<String>, c: Corrupt) -> Vec<u8> {
     s.into_bytes()
 }
 
-fn case_strategy() -> impl Strategy<Value = Case> {
+pub fn case_strategy() -> impl Strategy<Value = Case> {
     prop_oneof![
         (proptest::collection::vec(num_entry().prop_map(|(s, _)| s), 1..8), corrupt()).prop_map(|(entries, c)| Case { channel: false, text: assemble(false, entries, c).into() }),
         (proptest::collection::vec(chan_entry(), 1..8), corrupt()).prop_map(|(entries, c)| Case { channel: true, text: assemble(true, entries, c).into() }),
